@@ -201,7 +201,11 @@ def dist_job(metric, dtype, rows, feats, with_out=False):
         it = K.it
         X = sym_cells(dtype, (rows, feats), 'x')
         y = sym_cells(dtype, (feats,), 'y')
-        out_arg = funcs.np_full(rows, 7.0, dtype=np.float64) if with_out else None
+        if with_out == 'strided':          # a column of a table / every other element of a buffer: a valid 1-D float64 output
+            out_base = funcs.np_full(2 * rows, 7.0, dtype=np.float64)
+            out_arg = out_base[::2]
+        else:
+            out_arg = funcs.np_full(rows, 7.0, dtype=np.float64) if with_out else None
         X0, y0 = X.copy(), y.copy()
         exc = None
         try:
@@ -236,7 +240,7 @@ def dist_job(metric, dtype, rows, feats, with_out=False):
             for lname, Xl in layouts.items():
                 for nt in ('1', '4', '16'):
                     os.environ['OMP_NUM_THREADS'] = nt
-                    o = np.full(rows, 7.0) if with_out else None
+                    o = (np.full(2 * rows, 7.0)[::2] if with_out == 'strided' else np.full(rows, 7.0)) if with_out else None
                     with core.concrete_mode():
                         try:
                             r = getattr(mod, metric)(Xl, yc, o) if with_out else getattr(mod, metric)(Xl, yc)
@@ -244,8 +248,10 @@ def dist_job(metric, dtype, rows, feats, with_out=False):
                             out.update(exception=repr(e), out=None, violated=['raises ' + type(e).__name__],
                                        signature='%s:%s:exception:%s' % (metric, dtype, type(e).__name__))
                             return out
-                    if with_out and r is not o:
+                    if with_out and r is not o and with_out != 'strided':
                         bad.append('result-is-not-the-supplied-out-buffer')
+                    if with_out and o.tolist() != np.asarray(r).tolist():
+                        bad.append('supplied-out-buffer-does-not-hold-the-result')
                     if r.dtype != np.float64 or r.ndim != 1:
                         bad.append('result-not-1d-float64')
                     results.append(r.tolist())
@@ -283,8 +289,10 @@ def dist_job(metric, dtype, rows, feats, with_out=False):
         rc = cells(res)
         shape_ok = isinstance(res, SArr) and res.ndim == 1 and res.shape[0] == rows and res.ldtype == np.float64
         obs.append(('result-is-1d-float64', shape_ok))
-        if with_out:
+        if with_out and with_out != 'strided':
             obs.append(('result-is-the-supplied-out-buffer', res is out_arg))
+        if with_out and shape_ok:
+            obs.append(('supplied-out-buffer-holds-the-result', conj([a == b for a, b in zip(cells(out_arg), rc)])))
         if shape_ok:
             if metric == 'euclidean':
                 obs.append(('out[i] >= 0 and out[i]^2 == sum (x-y)^2', conj([(rc[i] >= 0) & (rc[i] * rc[i] == want[i]) for i in range(rows)])))
@@ -527,6 +535,7 @@ def jobs_for(prop, tier):
                     add('dist_job', '%s[%s,2x3]' % (metric, dt), metric=metric, dtype=dt, rows=2, feats=3)
             add('dist_job', '%s[%s,2x2,out]' % (metric, dts[0]), metric=metric, dtype=dts[0], rows=2, feats=2, with_out=True)
             add('dist_job', '%s[%s,1x1,out]' % (metric, dts[-1]), metric=metric, dtype=dts[-1], rows=1, feats=1, with_out=True)
+            add('dist_job', '%s[%s,2x1,strided-out]' % (metric, dts[0]), metric=metric, dtype=dts[0], rows=2, feats=1, with_out='strided')
     if prop in ('C13', 'C19'):
         for metric in ('euclidean', 'manhattan', 'hamming'):
             for xr, yr, outr in ((2, 1, None), (2, 1, 1), (1, 1, None), (3, 1, None), (2, 2, None), (2, 1, 2)):
